@@ -112,6 +112,15 @@ def _lex_of_value_type(vt, what):
     return LEX[vt["base"]]
 
 
+def _wild_max(d):
+    """maxOccurs of the wildcard: absent = 1, "unbounded" = None"""
+    if d is None or "maxOccurs" not in d:
+        return 1
+    if d["maxOccurs"] == "unbounded":
+        return None
+    return int(d["maxOccurs"])
+
+
 def _wild(d, what):
     if d is None:
         return "WNone"
@@ -142,6 +151,9 @@ SUPPLEMENT_ANY = {
     "schema.soapenv.Header_": ("WAny", 0), "schema.soapenv.Header": ("WAny", 0),
     "schema.soapenv.Body_": ("WAny", 0), "schema.soapenv.Body": ("WAny", 0),
 }
+#  * a wildcard that stands inside a repeated choice of the schema (saml:Advice) may occur any number of times
+#    although c_any carries no maxOccurs
+SUPPLEMENT_ANY_UNBOUNDED = ["saml.AdviceType_", "saml.Advice"]
 SUPPLEMENT_ANYATTR = {
     "schema.soapenv.Header_": "WOther", "schema.soapenv.Header": "WOther",
     "schema.soapenv.Body_": "WOther", "schema.soapenv.Body": "WOther",
@@ -263,11 +275,18 @@ def load_table():
         r.text = "TElemOnly" if c.c_value_type is None else "(TLex %s)" % _lex_of_value_type(c.c_value_type, r.name)
         r.any = _wild(c.c_any, r.name + ".c_any")
         r.anymin = 0
+        r.anymax = _wild_max(c.c_any)
+        if r.name in SUPPLEMENT_ANY_UNBOUNDED:
+            if r.any == "WNone":
+                raise TableError("%s has no c_any any more, drop it from SUPPLEMENT_ANY_UNBOUNDED" % r.name)
+            r.anymax = None
+            SUPPLEMENTS_USED.add("wildcard repeated %s" % r.name)
         r.anyattr = _wild(c.c_any_attribute, r.name + ".c_any_attribute")
         if r.name in SUPPLEMENT_ANY:
             if r.any != "WNone":
                 raise TableError("%s: the class now has c_any, drop it from SUPPLEMENT_ANY" % r.name)
             r.any, r.anymin = SUPPLEMENT_ANY[r.name]
+            r.anymax = None
             SUPPLEMENTS_USED.add("wildcard %s" % r.name)
         if r.name in SUPPLEMENT_ANYATTR:
             if r.anyattr != "WNone":
@@ -342,9 +361,9 @@ def _render_table():
                                              "None" if mx is None else "(Some %d)" % mx) for t, k, mn, mx, _m in r.parts)
         attrs = "; ".join("A %s %s %s" % (cq_q(n), lx, "true" if req else "false") for n, lx, req, _m in r.attrs)
         rows.append("  (* %d *) {| ci_name := %s; ci_tag := %s; ci_elem := %s;\n     ci_parts := [%s];\n     ci_attrs := [%s];\n"
-                    "     ci_text := %s; ci_any := %s; ci_anymin := %d; ci_anyattr := %s |}" % (
+                    "     ci_text := %s; ci_any := %s; ci_anymin := %d; ci_anymax := %s; ci_anyattr := %s |}" % (
                         i, cq_str(r.name), cq_q(r.tag), "true" if r.elem else "false", parts, attrs, r.text, r.any, r.anymin,
-                        r.anyattr))
+                        "None" if r.anymax is None else "(Some %d)" % r.anymax, r.anyattr))
     L.append("Definition live_table : table := [")
     L.append(";\n".join(rows))
     L.append("].")
